@@ -238,6 +238,17 @@ func (r *NgReader) readOption() error {
 
 // readSectionHeader parses the full section header and implements section skipping in case of version mismatch
 // if needed, the first interface is read
+// errNgOptionTooShort is returned for an option whose value is shorter than the fixed size of its type.
+var errNgOptionTooShort = errors.New("pcapng: option value is too short")
+
+// optionValue returns the value of the current option if it has at least n bytes.
+func (r *NgReader) optionValue(n int) ([]byte, error) {
+	if len(r.currentOption.value) < n {
+		return nil, errNgOptionTooShort
+	}
+	return r.currentOption.value, nil
+}
+
 func (r *NgReader) readSectionHeader() error {
 	if r.options.SectionEndCallback != nil && r.activeSection {
 		interfaces := make([]NgInterface, len(r.ifaces))
@@ -407,11 +418,17 @@ OPTIONS:
 		case ngOptionCodeInterfaceOS:
 			intf.OS = string(r.currentOption.value)
 		case ngOptionCodeInterfaceTimestampOffset:
-			intf.TimestampOffset = r.getUint64(r.currentOption.value[:8])
-		case ngOptionCodeInterfaceTimestampResolution:
-			if len(r.currentOption.value) > 0 {
-				intf.TimestampResolution = NgResolution(r.currentOption.value[0])
+			v, err := r.optionValue(8)
+			if err != nil {
+				return err
 			}
+			intf.TimestampOffset = r.getUint64(v[:8])
+		case ngOptionCodeInterfaceTimestampResolution:
+			v, err := r.optionValue(1)
+			if err != nil {
+				return err
+			}
+			intf.TimestampResolution = NgResolution(v[0])
 		}
 	}
 	if err := r.discard(int(r.currentBlock.length)); err != nil {
@@ -421,6 +438,10 @@ OPTIONS:
 		intf.TimestampResolution = 6
 	}
 
+	// the number of units per second has to fit into 64 bits
+	if e := intf.TimestampResolution.Exponent(); (intf.TimestampResolution.Binary() && e > 63) || (!intf.TimestampResolution.Binary() && e > 19) {
+		return fmt.Errorf("pcapng: unsupported timestamp resolution %#x", uint8(intf.TimestampResolution))
+	}
 	//parse options
 	if intf.TimestampResolution.Binary() {
 		//negative power of 2
@@ -475,15 +496,31 @@ OPTIONS:
 		case ngOptionCodeComment:
 			stats.Comment = string(r.currentOption.value)
 		case ngOptionCodeInterfaceStatisticsStartTime:
-			ts = uint64(r.getUint32(r.currentOption.value[:4]))<<32 | uint64(r.getUint32(r.currentOption.value[4:8]))
+			v, err := r.optionValue(8)
+			if err != nil {
+				return err
+			}
+			ts = uint64(r.getUint32(v[:4]))<<32 | uint64(r.getUint32(v[4:8]))
 			stats.StartTime = time.Unix(r.convertTime(ifaceID, ts)).UTC()
 		case ngOptionCodeInterfaceStatisticsEndTime:
-			ts = uint64(r.getUint32(r.currentOption.value[:4]))<<32 | uint64(r.getUint32(r.currentOption.value[4:8]))
+			v, err := r.optionValue(8)
+			if err != nil {
+				return err
+			}
+			ts = uint64(r.getUint32(v[:4]))<<32 | uint64(r.getUint32(v[4:8]))
 			stats.EndTime = time.Unix(r.convertTime(ifaceID, ts)).UTC()
 		case ngOptionCodeInterfaceStatisticsInterfaceReceived:
-			stats.PacketsReceived = r.getUint64(r.currentOption.value[:8])
+			v, err := r.optionValue(8)
+			if err != nil {
+				return err
+			}
+			stats.PacketsReceived = r.getUint64(v[:8])
 		case ngOptionCodeInterfaceStatisticsInterfaceDropped:
-			stats.PacketsDropped = r.getUint64(r.currentOption.value[:8])
+			v, err := r.optionValue(8)
+			if err != nil {
+				return err
+			}
+			stats.PacketsDropped = r.getUint64(v[:8])
 		}
 	}
 	if err := r.discard(int(r.currentBlock.length)); err != nil {
@@ -600,8 +637,12 @@ OPTIONS:
 		case ngOptionCodeComment:
 			opts.Comments = append(opts.Comments, string(r.currentOption.value))
 		case ngOptionCodeEpbFlags:
+			val, err := r.optionValue(4)
+			if err != nil {
+				return opts, err
+			}
 			flags := NgEpbFlags{}
-			flags.FromUint32(binary.LittleEndian.Uint32(r.currentOption.value))
+			flags.FromUint32(binary.LittleEndian.Uint32(val))
 			opts.Flags = &flags
 		case ngOptionCodeEpbHash:
 			if len(r.currentOption.value) == 0 {
@@ -614,13 +655,25 @@ OPTIONS:
 				Hash:      v,
 			})
 		case ngOptionCodeEpbDropCount:
-			v := binary.LittleEndian.Uint64(r.currentOption.value)
+			val, err := r.optionValue(8)
+			if err != nil {
+				return opts, err
+			}
+			v := binary.LittleEndian.Uint64(val)
 			opts.DropCount = &v
 		case ngOptionCodeEpbPacketID:
-			v := binary.LittleEndian.Uint64(r.currentOption.value)
+			val, err := r.optionValue(8)
+			if err != nil {
+				return opts, err
+			}
+			v := binary.LittleEndian.Uint64(val)
 			opts.PacketID = &v
 		case ngOptionCodeEpbQueue:
-			v := binary.LittleEndian.Uint32(r.currentOption.value)
+			val, err := r.optionValue(4)
+			if err != nil {
+				return opts, err
+			}
+			v := binary.LittleEndian.Uint32(val)
 			opts.Queue = &v
 		case ngOptionCodeEpbVerdict:
 			if len(r.currentOption.value) == 0 {
